@@ -155,6 +155,7 @@ func checkC10(w *World, r *Report) {
 	checkExtendingRendersNothingElse(w, r)
 	checkBodiesRenderInPlace(w, r)
 	checkOwnBlocksRegistered(w, r)
+	checkExtendsSearchedEverywhere(w, r)
 	checkResolvesThroughLoad(w, r, "R10.5", []string{"ExtendsNode"}, "a parent remembered from an earlier render is used although the parent name is an expression (or the engine would reload it): the child is laid out in the wrong parent")
 
 	// ---- R10.2
@@ -880,4 +881,109 @@ func checkOwnBlocksRegistered(w *World, r *Report) {
 		})
 	}
 	r.floor("block registrations in the root node", n, 1)
+}
+
+// checkExtendsSearchedEverywhere — R10.10: `{% extends %}` counts wherever it stands among the
+// top-level nodes.  A loop that looks for the extends tag among a list of nodes (a type assertion
+// to *ExtendsNode on an element of a []Node) runs to the end of the list: it has no exit other
+// than the exhaustion of the list, unless the exit is taken only where the tag was found.  A
+// search that gives up at the first tag that is not the extends tag renders a template whose
+// extends follows a set, an import or a block as a stand-alone template.
+func checkExtendsSearchedEverywhere(w *World, r *Report) {
+	extT := w.named("ExtendsNode")
+	n := 0
+	for _, fn := range w.pkgFuncs() {
+		instrsOf(fn, func(in ssa.Instruction) {
+			ta, ok := in.(*ssa.TypeAssert)
+			if !ok || !types.Identical(deref(ta.AssertedType), extT) {
+				return
+			}
+			// element of a []Node?
+			u, ok := unspill(ta.X).(*ssa.UnOp)
+			if !ok {
+				return
+			}
+			ia, ok := u.X.(*ssa.IndexAddr)
+			if !ok {
+				return
+			}
+			// loop header: block of the index phi
+			var ph *ssa.Phi
+			switch x := ia.Index.(type) {
+			case *ssa.Phi:
+				ph = x
+			case *ssa.BinOp:
+				ph, _ = x.X.(*ssa.Phi)
+			}
+			if ph == nil {
+				return
+			}
+			h := ph.Block()
+			n++
+			// natural loop of h
+			body := map[*ssa.BasicBlock]bool{h: true}
+			var stack []*ssa.BasicBlock
+			for _, p := range h.Preds {
+				if h.Dominates(p) && !body[p] {
+					body[p] = true
+					stack = append(stack, p)
+				}
+			}
+			for len(stack) > 0 {
+				b := stack[len(stack)-1]
+				stack = stack[:len(stack)-1]
+				for _, p := range b.Preds {
+					if !body[p] {
+						body[p] = true
+						stack = append(stack, p)
+					}
+				}
+			}
+			// found-edge: true edge of the assertion's ok
+			var okv ssa.Value
+			if ta.CommaOk && ta.Referrers() != nil {
+				for _, ref := range *ta.Referrers() {
+					if ex, isEx := ref.(*ssa.Extract); isEx && ex.Index == 1 {
+						okv = ex
+					}
+				}
+			}
+			bad := ""
+			for b := range body {
+				if b == h {
+					continue
+				}
+				for _, s := range b.Succs {
+					if body[s] {
+						continue
+					}
+					// an exit from inside the loop: only where the tag was found
+					found := false
+					if okv != nil {
+						for _, c := range controllingConds(b.Instrs[len(b.Instrs)-1]) {
+							if c == okv {
+								found = true
+							}
+						}
+						if cv, _, isIf := ifCond(b); isIf && cv == okv {
+							found = true
+						}
+					}
+					if !found {
+						bad = w.posOf(b.Instrs[len(b.Instrs)-1].Pos())
+						if bad == "" || bad == "-" {
+							bad = fmt.Sprintf("block %d", b.Index)
+						}
+					}
+				}
+			}
+			construct := "the search for the extends tag visits every node"
+			if bad == "" {
+				r.ok("R10.10", ssaName(fn), construct, w.posOf(ta.Pos()), "the loop ends by exhaustion (or where the tag was found)", true)
+			} else {
+				r.bad("R10.10", ssaName(fn), construct, w.posOf(ta.Pos()), "the loop that looks for the extends tag can be left ("+bad+") before the list is exhausted and without having found it: a template in which something else — a set, an import, a block — precedes {% extends %} is rendered as if it extended nothing")
+			}
+		})
+	}
+	r.floor("searches for the extends tag among nodes", n, 1)
 }
